@@ -7,7 +7,7 @@ func main() {
 	tqmon.Main(tqmon.Config{
 		ID: "C06", Level: "fault_enumeration", Prof: "c06", Judge: tqmon.JudgeC06,
 		Quick: 480, Thorough: 7200, PerChild: 60,
-		Rule: "seeded scripts for the real tq.TransferQueue (real manifest + API client over HTTP to a scripted batch server, scripted fake adapter, -race, seeded yields at verif hook points, GOMAXPROCS in {1,2,4,16}): multisets of 1-12 oids with repeats, batch sizes, 23 themes (20 with a scripted fake adapter: adapter retriable/fatal/retry-later/422, batch call 429/5xx/reset/bad JSON, per-object no-action/error/expired, omitted, listed twice, unknown oid, empty list, hash_algo, missing upload source, Begin error, dry run; 3 with the built-in basic adapter doing real HTTP transfers against the harness's storage endpoints: no fault, the very first storage request failing with 503/404/reset/429/cut body, per-object storage fault scripts). Oracle: termination by quiescence, delivery counts in {0,k} to every watcher, every object delivered / declared needless / covered by a reported error, no delivery without a successful adapter transfer (fake adapter outcome or a storage request the server completed), downloaded destination files hold the object, pending counter never negative and 0 at Wait return. Class = (theme, direction, #objects, duplicates, batch size vs n, maxretries, watchers, yields).",
+		Rule: "seeded scripts for the real tq.TransferQueue (real manifest + API client over HTTP to a scripted batch server, scripted fake adapter, -race, seeded yields at verif hook points, GOMAXPROCS in {1,2,4,16}): multisets of 1-12 oids with repeats, batch sizes, 24 themes (21 with a scripted fake adapter: adapter retriable/fatal/retry-later/422, batch call 429/5xx/reset/bad JSON, per-object no-action/error/expired, omitted, listed twice, unknown oid, empty list, hash_algo, missing upload source, local upload file of one/some/every object lost or one byte short without the queue being told, Begin error, dry run; 3 with the built-in basic adapter doing real HTTP transfers against the harness's storage endpoints: no fault, the very first storage request failing with 503/404/reset/429/cut body, per-object storage fault scripts). Oracle: termination by quiescence, delivery counts in {0,k} to every watcher, every object delivered / declared needless / covered by a reported error, no delivery without a successful adapter transfer (fake adapter outcome or a storage request the server completed), downloaded destination files hold the object, pending counter never negative and 0 at Wait return. Class = (theme, direction, #objects, duplicates, batch size vs n, maxretries, watchers, yields).",
 		Assume: []string{"a hang is declared only after no batch request and no adapter call was in flight and no hook event was observed for 20 s", "an error naming no object of the case (batch-level) covers every object; an abort by a reported fatal error covers every object", "back-off delays are scaled by 0.01 through the verif hook; Retry-After waits are real"},
 	})
 }
